@@ -1,0 +1,6 @@
+//go:build !verif
+
+package internal
+
+// BlockBufferSize is the size at which a data block of a saved cache is flushed.
+const BlockBufferSize = 4 * 1024 * 1024
